@@ -138,7 +138,12 @@ class ConditionItem(ParentChainMixin, ABC):
         if (
             self.arg_count > 1 and len(self.args) == 1
         ):  # multi-argument condition (AND, OR) has only one argument left: return the single argument
-            return self.args[0]
+            # This operator vanishes from the tree, so it must vanish from the parent chain as well:
+            # decisions taken from the chain (grouping, negation) would see an operator that isn't there.
+            arg = self.args[0]
+            if arg is not None:
+                arg.parent = parent
+            return arg
         elif (
             self.arg_count > 0 and len(self.args) == 0
         ):  # There should be an argument but none is left
